@@ -165,7 +165,8 @@ Record dcase := {
   dc_seen : list (N * list note);
   dc_wevs : list wev;
   dc_frames : list frame;
-  dc_check_frames : bool            (* false: the socket was slow, the write side is checked by the oracle only *)
+  dc_check_frames : bool;           (* false: the socket was slow, the write side is checked by the oracle only *)
+  dc_drained : bool                 (* the remote read everything in the end and never sent unlinked *)
 }.
 
 Definition dl_case_ok (c : dcase) : bool :=
@@ -262,12 +263,24 @@ Fixpoint sync_flag (c : N) (es : list rev) : bool :=
   | _ :: t => sync_flag c t
   end.
 
+(* a consumer that needs a sync has a sync request reach the remote after it joined; [WWritten] marks the
+   moments at which the remote read one more frame *)
+Definition is_sync_frame (f : frame) : bool := match f with FSync => true | _ => false end.
+Fixpoint syncs_ok (es : list wev) (fs : list frame) : bool :=
+  match es with
+  | [] => true
+  | WWritten :: t => syncs_ok t (tl fs)
+  | WProducer true :: t => existsb is_sync_frame fs && syncs_ok t fs
+  | _ :: t => syncs_ok t fs
+  end.
+
 Definition dl_oracle_ok (c : dcase) : bool :=
   let sent := commands_of (dc_frames c) in
   let given := commands_in (dc_wevs c) in
   (* commands: never reordered, only dropped; the link request comes first *)
   is_subseq sent given
   && (match dc_frames c with FLink :: _ | [] => true | _ => false end)
+  && (negb (dc_drained c) || syncs_ok (dc_wevs c) (dc_frames c))
   (* every consumer gets the session it is owed *)
   && forallb (fun cs => session_ok (snd cs)
                         && notes_eqb (session (dc_single c) (fst cs) (sync_flag (fst cs) (dc_revs c)) sess0 (dc_revs c)) (snd cs))
